@@ -1639,8 +1639,29 @@ func (g *Gen) stickySteps(v View) []step {
 			if g.sticky == nil || len(g.sticky.bad) == 0 || g.sticky.pendingMark {
 				return Action{Op: "advance", DurUs: hb}, true
 			}
+			// a hiccup inside the majority: the link between the leader and one of its majority loses everything for
+			// less than half an election timeout (both still hear each other within every election timeout: that is
+			// "prompt contact" by the library's own rule); it is restored by the very next step
+			if g.sticky.hiccupNode != "" {
+				m := g.sticky.hiccupNode
+				g.sticky.hiccupNode = ""
+				// ... and contact is re-established before anything else happens
+				g.queue = append([]step{lit(Action{Op: "link", Node: m, Node2: g.sticky.leader, Mode: "prompt"}), advance(3*hb + 2000)}, g.queue...)
+				return Action{Op: "link", Node: g.sticky.leader, Node2: m, Mode: "prompt"}, true
+			}
 			x := g.pick("bad", g.sticky.bad)
-			switch rapid.SampledFrom([]string{"isolate", "isolate", "isolate", "reconnect", "reconnect", "advance", "advance", "advance", "crash", "stop", "restart", "restart", "release"}).Draw(g.T, "sticky") {
+			switch rapid.SampledFrom([]string{"isolate", "isolate", "isolate", "reconnect", "reconnect", "advance", "advance", "advance", "crash", "stop", "restart", "restart", "release", "hiccup"}).Draw(g.T, "sticky") {
+			case "hiccup":
+				if len(g.sticky.good) > 0 {
+					m := g.pick("hiccupAt", g.sticky.good)
+					g.sticky.hiccupNode = m
+					d := g.dur("hiccup", et/4, et/3, et/2-2*hb)
+					if d < hb {
+						d = hb
+					}
+					g.queue = append([]step{lit(Action{Op: "link", Node: m, Node2: g.sticky.leader, Mode: "drop"}), advance(d)}, g.queue...)
+					return Action{Op: "link", Node: g.sticky.leader, Node2: m, Mode: "drop"}, true
+				}
 			case "isolate":
 				return Action{Op: "isolate", Node: x, Mode: rapid.SampledFrom([]string{"drop", "drop", "held"}).Draw(g.T, "mode"), Dir: rapid.SampledFrom([]string{"both", "in", "out"}).Draw(g.T, "dir")}, true
 			case "reconnect":
@@ -1673,7 +1694,10 @@ type stickyState struct {
 	leader      string
 	removed     string
 	bad         []string
+	good        []string // the leader's majority (without the leader)
 	pendingMark bool
+	hiccupUntil int // steps until the link that has a hiccup is restored
+	hiccupNode  string
 }
 
 // stickyMark fixes the leader's majority and the set of nodes that may misbehave, and records T0.
@@ -1718,6 +1742,7 @@ func (g *Gen) stickyMark(v View) Action {
 		g.sticky.bad = append(g.sticky.bad, id)
 	}
 	sort.Strings(g.sticky.bad)
+	g.sticky.good = good
 	return Action{Op: "mark", Node: l, Set: good, Desc: "T0"}
 }
 
